@@ -100,6 +100,19 @@ type Ctx struct {
 	deadline                    time.Time
 }
 
+// Collect runs fn with a fresh context outside any tier (no evidence, no exit code) and returns the
+// violations it recorded, one per class; for helper processes of a harness (e.g. cold-start passes).
+func Collect(id string, fn func(c *Ctx)) []*Violation {
+	c := &Ctx{ID: id, Tier: "helper", start: time.Now(),
+		nontrivial: map[uint64]struct{}{}, viol: map[string]*Violation{}, extra: map[string]interface{}{}, exhaustive: true}
+	fn(c)
+	var out []*Violation
+	for _, k := range c.violOrder {
+		out = append(out, c.viol[k])
+	}
+	return out
+}
+
 // ReplayFunc re-runs one stored case.
 type ReplayFunc func(c *Ctx, input json.RawMessage)
 
